@@ -1142,7 +1142,11 @@ func (d *DNSFilter) updatesLoop() {
 func (d *DNSFilter) periodicallyRefreshFilters(ivl time.Duration) (nextIvl time.Duration) {
 	const maxInterval = time.Hour
 
-	if d.conf.FiltersUpdateIntervalHours == 0 {
+	d.conf.filtersMu.RLock()
+	updIvlHours := d.conf.FiltersUpdateIntervalHours
+	d.conf.filtersMu.RUnlock()
+
+	if updIvlHours == 0 {
 		return ivl
 	}
 
